@@ -83,13 +83,17 @@ class BasicStructure(ComplexDop):
             actual_len = encode_state.cursor_byte_position - orig_pos
 
             if actual_len < self.byte_size:
-                # Padding bytes are needed. We add an empty object at
-                # the position directly after the structure and let
-                # EncodeState add the padding as needed.
-                encode_state.cursor_byte_position = encode_state.origin_byte_position + self.byte_size
-                # Padding bytes needed. these count as "used".
-                encode_state.coded_message += b"\x00" * (self.byte_size - actual_len)
-                encode_state.used_mask += b"\xff" * (self.byte_size - actual_len)
+                # Padding bytes are needed: the structure ends
+                # `byte_size` bytes after the position where it
+                # started. (Note that the origin has already been reset
+                # to the one of the enclosing object at this point.)
+                end_pos = orig_pos + self.byte_size
+                encode_state.cursor_byte_position = end_pos
+                # Padding bytes count as "used".
+                num_missing = end_pos - len(encode_state.coded_message)
+                if num_missing > 0:
+                    encode_state.coded_message += b"\x00" * num_missing
+                    encode_state.used_mask += b"\xff" * num_missing
 
     @override
     def decode_from_pdu(self, decode_state: DecodeState) -> ParameterValue:
